@@ -181,3 +181,19 @@ Theorem C16_package_name_keeps_other_chars : forall c r title x,
   In x (package_name None (Some (c :: r)) title) -> x <> 45 /\ (In x (c :: r) \/ (x = 95 /\ In 45 (c :: r))).
 Proof. exact package_name_keeps_other_chars. Qed.
 Print Assumptions C16_package_name_keeps_other_chars.
+
+(* --file-encoding: every writer of a generated file passes encoding=config.file_encoding *)
+Theorem C16_all_writers_encoded : writers_ok = true.
+Proof. exact all_writers_encoded. Qed.
+Print Assumptions C16_all_writers_encoded.
+Theorem C16_writers_sound : forall f site callee enc, In (f, site, callee, enc) gen_writers -> enc = true.
+Proof. exact writers_sound. Qed.
+Print Assumptions C16_writers_sound.
+(* docstrings: document text enters a triple-quoted literal only through helpers.jinja safe_docstring *)
+Theorem C16_docstring_literals_documented : docstring_literals_ok = true.
+Proof. exact docstring_literals_documented. Qed.
+Print Assumptions C16_docstring_literals_documented.
+Theorem C16_docstring_literals_sound : forall f e, In (f, e) gen_docstring_literals ->
+  (f = s2l "templates/helpers.jinja" /\ e = s2l "content") \/ f = s2l "templates/client.py.jinja".
+Proof. exact docstring_literals_sound. Qed.
+Print Assumptions C16_docstring_literals_sound.
